@@ -922,6 +922,41 @@ func runEPB(c *Case) {
 	leakBase := rpcx.Goroutines(e2eFrames, []string{"Verif"})
 	parkedBase, exitBase := countFrame(frameSendAccept), countFrame(frameServeExit)
 	side := c.Mode != ""
+	// stalled: a side mode with an application-supplied websocket dialer (no
+	// handshake time-out of its own) whose side dials reach a listener that
+	// accepts the TCP connection and never answers the upgrade
+	stalled := c.Mode == "siding-stalled"
+	var hole net.Listener
+	var holeMu sync.Mutex
+	var holeConns []net.Conn
+	var dials atomic.Int32
+	if stalled {
+		var err error
+		hole, err = net.Listen("tcp", "127.0.0.1:0")
+		if err != nil {
+			c.Crash = "listen: " + err.Error()
+			return
+		}
+		go func() {
+			for {
+				hc, err := hole.Accept()
+				if err != nil {
+					return
+				}
+				holeMu.Lock()
+				holeConns = append(holeConns, hc)
+				holeMu.Unlock()
+			}
+		}()
+		defer func() {
+			hole.Close()
+			holeMu.Lock()
+			for _, hc := range holeConns {
+				hc.Close()
+			}
+			holeMu.Unlock()
+		}()
+	}
 	var mu sync.Mutex
 	var clients []*sniproxy.VerifClient
 	srv := sniproxy.NewServer(&sniproxy.ServerConfig{
@@ -962,6 +997,19 @@ func runEPB(c *Case) {
 		opt := &sniproxy.DialOption{Path: "/site", WithoutTLS: true}
 		if side {
 			opt.TunnelOptions = &sniproxy.Options{Siding: true, DialWithAddr: c.Mode == "sidingaddr"}
+		}
+		if stalled && dials.Load() == 0 {
+			// the application's own dialer: the first connection it makes is the
+			// control connection, every later one a side connection (the endpoint
+			// that kicks this one later uses the default dialer)
+			opt.Dialer = &websocket.Dialer{
+				NetDialContext: func(ctx context.Context, network, addr string) (net.Conn, error) {
+					if dials.Add(1) > 1 {
+						addr = hole.Addr().String()
+					}
+					return (&net.Dialer{}).DialContext(ctx, network, addr)
+				},
+			}
 		}
 		return sniproxy.Dial(context.Background(), &sniproxy.StaticRouter{Host: ts.Listener.Addr().String()}, opt)
 	}
@@ -1027,7 +1075,21 @@ func runEPB(c *Case) {
 	if want < 0 {
 		want = 0
 	}
-	for t0 := time.Now(); time.Since(t0) < waitBound; time.Sleep(time.Millisecond) {
+	if stalled {
+		// every dial handler is inside its side dial, waiting for the answer
+		// to the upgrade request
+		want = n
+		for t0 := time.Now(); time.Since(t0) < waitBound; time.Sleep(time.Millisecond) {
+			holeMu.Lock()
+			c.Parked = len(holeConns)
+			holeMu.Unlock()
+			if c.Parked >= want {
+				time.Sleep(5 * time.Millisecond)
+				break
+			}
+		}
+	}
+	for t0 := time.Now(); !stalled && time.Since(t0) < waitBound; time.Sleep(time.Millisecond) {
 		if c.Parked = countFrame(frameSendAccept) - parkedBase; c.Parked >= want {
 			time.Sleep(2 * time.Millisecond)
 			break
